@@ -19,7 +19,7 @@ pub struct Party {
 /// Build the PSET of a scenario and a party assignment honouring the protocol's premises.
 pub fn build(r: &mut gen::Rg, sc: &Scenario, max_parties: usize) -> (Pset, Vec<Party>) {
     let n_in = sc.tx.input.len();
-    let k = if n_in >= 2 && r.gen_range(0..4) != 0 { r.gen_range(2..=max_parties.min(n_in)) } else { r.gen_range(1..=max_parties.min(n_in)) };
+    let k = if max_parties >= 2 && n_in >= 2 && r.gen_range(0..4) != 0 { r.gen_range(2..=max_parties.min(n_in)) } else { r.gen_range(1..=max_parties.min(n_in)) };
     // partition inputs into k non-empty groups
     let mut owner = vec![0usize; n_in];
     let mut order: Vec<usize> = (0..n_in).collect();
